@@ -40,6 +40,10 @@ known("C02", "withitem-parenthesised-group-shares-one-range", "the items of a pa
 known("C02", "empty-arguments-range-not-empty", "an empty parameter list gets the range of `()` (def) or of the whole lambda instead of an empty range (all-nodes-with-ranges)", "lambda: 0")
 known("C02", "match-subject-tuple-range-ignores-element-parens-and-trailing-comma", "an unparenthesised tuple subject of `match` spans from the first element's inner start to the last element's inner end (element parentheses and the trailing comma are left out)", "match (a), b,:\n case _: pass")
 
+# ---------------------------------------------------------------- C03 / C09
+for prop in ("C03", "C09"):
+    known(prop, "eof-error-offset-not-translated-for-token-less-input", "an input without any token (empty, blank or comment-only) parsed with a start offset k > 0 reports its end-of-input error at offset 0 instead of inside [k, k+len] (the start-marker token carries a default range)", "parse_starts_at('', Mode::Expression, 400)")
+
 # further per-property tables are appended by findings_*.py fragments (one per check family)
 if __name__ == "__main__":
     import os
